@@ -20,8 +20,11 @@ import (
 	"fmt"
 	"math/big"
 	"os"
+	"runtime"
+	"runtime/pprof"
 	"sort"
 	"strings"
+	"time"
 
 	"github.com/LemoFoundationLtd/lemochain-core/chain/account"
 	"github.com/LemoFoundationLtd/lemochain-core/chain/types"
@@ -147,7 +150,24 @@ func c10NewStore() *c10Store {
 	return &c10Store{dir: dir, db: store.NewChainDataBase(dir), blocks: map[int]*types.Block{}}
 }
 
+// drain waits (bounded) until the store's asynchronous bitcask writer has consumed its queue.  Closing
+// a store with pending writes leaves its writer goroutine blocked for ever on the error channel
+// (store/sync_file_db.go) together with two 2 MB channel buffers; thousands of cases would not fit in memory.
+func (s *c10Store) drain() {
+	q := s.db.Beansdb.Queue
+	for i := 0; i < 400; i++ {
+		if len(q.SyncFileDB.WriteChan) == 0 && len(q.DoneChan) == 0 {
+			if i > 0 {
+				time.Sleep(200 * time.Microsecond)
+			}
+			return
+		}
+		time.Sleep(500 * time.Microsecond)
+	}
+}
+
 func (s *c10Store) close() {
+	s.drain()
 	s.db.Close()
 	os.RemoveAll(s.dir)
 }
@@ -221,7 +241,10 @@ func (s *c10Store) setStable(id int) string {
 	})
 }
 
-func (s *c10Store) reopen() {
+func (s *c10Store) reopen(drain bool) {
+	if drain {
+		s.drain()
+	}
 	s.db.Close()
 	s.db = store.NewChainDataBase(s.dir)
 }
@@ -332,6 +355,14 @@ func c10(c *Ctx) {
 	// ---------------- Part B: store histories ----------------
 	for cs := 0; cs < c.N; cs++ {
 		c10Case(c, cs)
+	}
+	if f := os.Getenv("C10_PROFILE"); f != "" { // debugging aid: where does the memory of closed stores stay?
+		runtime.GC()
+		if w, err := os.Create(f); err == nil {
+			pprof.Lookup("goroutine").WriteTo(w, 1)
+			pprof.Lookup("heap").WriteTo(w, 1)
+			w.Close()
+		}
 	}
 
 }
@@ -623,7 +654,11 @@ func c10Case(c *Ctx, caseNo int) {
 			}
 			stable = id
 		case r < 90: // ---- restart
-			s2.reopen()
+			drained := c.Rnd.Intn(4) != 0 // 1 in 4 restarts happens with writes still queued
+			s2.reopen(drained)
+			if !drained {
+				c.Count("op:reopen-with-pending-writes")
+			}
 			out := s2.showBlock(stable)
 			op("reopen", out)
 			c.Count("op:reopen")
